@@ -208,6 +208,48 @@ def rule_ecies_kdf(ctx: Ctx, rep: Report) -> None:
             rep.ob(rule, "derive_keys:compressed", v is True, dk.where(c), "the shared point is hashed compressed" if v is True else "the shared point is hashed uncompressed: not the Electrum/BIE1 derivation")
 
 
+def rule_agg_siblings(ctx: Ctx, rep: Report) -> None:
+    """C16.agg_siblings: the plain and the adaptor aggregation are one sum: both add
+    the partial signatures and the tweak term e*g*tacc (BIP327 PartialSigAgg),
+    so each public `partial_sig_agg*` reaches -- itself or through the private
+    helper they share -- a use of `tacc`. An aggregator without it completes to a
+    signature that is invalid whenever the session has a tweak."""
+    rule = "C16.agg_siblings"
+    mi = ctx.module("btclib.ecc.musig2")
+    n = 0
+
+    def reaches_tacc(fi, depth=2, seen=None) -> bool:
+        seen = seen or set()
+        if fi.qualname in seen:
+            return False
+        seen.add(fi.qualname)
+        if any(isinstance(x, ast.Attribute) and x.attr == "tacc" and any(isinstance(p_, ast.BinOp) for p_ in _up(x)) for x in own_nodes(fi.node)):
+            return True
+        if depth == 0:
+            return False
+        for c in own_nodes(fi.node):
+            if isinstance(c, ast.Call):
+                t = ctx.prog.functions.get(ctx.resolve_call(fi, c) or "")
+                if t is not None and t.module is mi and t.name.startswith("_") and reaches_tacc(t, depth - 1, seen):
+                    return True
+        return False
+
+    for name, fi in sorted(mi.functions.items()):
+        if name.startswith("partial_sig_agg") or name.startswith("partial_sigs_agg"):
+            n += 1
+            ok = reaches_tacc(fi)
+            rep.ob(rule, f"{name}:tweak_term", ok, fi.where(), "adds e*g*tacc" if ok else f"{name} never adds the tweak term: with any tweak in the session the aggregate is not a valid signature for the tweaked key")
+    rep.floor(rule, 2)
+    # BIP341's tweak preimage where the psbt layer computes it for a musig internal key: internal key first, merkle root second
+    tw = ctx.func("btclib.psbt.musig2._tweaks")
+    calls = [c for c in own_nodes(tw.node) if isinstance(c, ast.Call) and call_name(c) == "tagged_hash" and c.args and ctx.fold(c.args[0], tw.module) == b"TapTweak"]
+    for c in calls:
+        a = c.args[1] if len(c.args) > 1 else None
+        ok = isinstance(a, ast.BinOp) and isinstance(a.op, ast.Add) and "internal_key" in str(norm(a.left)) and "merkle_root" in str(norm(a.right))
+        rep.ob(rule, "psbt._tweaks:TapTweak_preimage", ok, tw.where(c), "TapTweak(internal key || merkle root)" if ok else
+               f"the TapTweak preimage is `{norm(a) if a is not None else None}`: BIP341 hashes the internal key first, then the merkle root")
+
+
 def rule_bool_total(ctx: Ctx, rep: Report) -> None:
     """C16.bool_total: proof predicates answer True/False."""
     rule = "C16.bool_total"
@@ -228,19 +270,29 @@ def rule_params_forwarded_(ctx: Ctx, rep: Report) -> None:
     rule_params_forwarded(ctx, rep, "C16.params_forwarded", ('btclib.ecc.musig2', 'btclib.ecc.ecies', 'btclib.ecc.dh', 'btclib.ecc.dleq', 'btclib.silent_payments', 'btclib.psbt.silent_payments', 'btclib.psbt.musig2', 'btclib.ecc.ellswift'), 80)
 
 
+def rule_terms_multiset(ctx: Ctx, rep: Report) -> None:
+    """C16.terms_multiset: the terms of a sum are one per seat, never deduplicated (see sigcommon.rule_terms_are_a_multiset)."""
+    from rules.sigcommon import rule_terms_are_a_multiset
+    rule_terms_are_a_multiset(ctx, rep, "C16.terms_multiset", ('btclib.ecc.musig2', 'btclib.psbt.musig2', 'btclib.silent_payments', 'btclib.psbt.silent_payments', 'btclib.descriptors.key_expression'), 8)
+
+
 RULES = [
+    ("C16.terms_multiset", rule_terms_multiset),
     ("C16.params_forwarded", rule_params_forwarded_),
     ("C16.ecies_order", rule_ecies_order),
     ("C16.sp_shared", rule_sp_shared),
     ("C16.musig_store", rule_musig_store),
     ("C16.musig_ranges", rule_musig_ranges),
     ("C16.gacc", rule_gacc),
+    ("C16.agg_siblings", rule_agg_siblings),
     ("C16.sum_multiset", rule_sum_multiset),
     ("C16.ecies_kdf", rule_ecies_kdf),
     ("C16.bool_total", rule_bool_total),
 ]
 
 CONTROLS = [
+    {"rule": "C16.agg_siblings", "name": "the psbt layer hashes merkle root before internal key", "module": "btclib.psbt.musig2",
+     "edit": lambda ctx: M.sub_expr(ctx, "btclib.psbt.musig2._tweaks", M.is_text("psbt_in.taproot_internal_key + psbt_in.taproot_merkle_root"), "psbt_in.taproot_merkle_root + psbt_in.taproot_internal_key")},
     {"rule": "C16.sum_multiset", "name": "the ECDH shares are collected in a set", "module": "btclib.psbt.silent_payments",
      "edit": lambda ctx: M.sub_expr(ctx, "btclib.psbt.silent_payments._share_and_sum", lambda n: isinstance(n, ast.Call) and call_name(n) == "pub_key_sum" and norm(n.args[0]) == "shares", "sp.pub_key_sum(list(set(shares)))")},
     {"rule": "C16.ecies_kdf", "name": "the KDF input follows the encoding of the peer's key", "module": "btclib.ecc.ecies",
